@@ -73,6 +73,16 @@ def holder_flow(rng):
 # referring to a finished flow / action that is read after the clean-up age; an activated flow restarted
 # after its old instance aged away.
 TEMPLATES = {
+    # two names for ONE list / dict object before the cut; after the cut one name is updated in place, the other one is reported
+    "alias-made-before-cut": (
+        "flow main\n  activate varholder\n  $a = [1, 2]\n  $b = $a\n  $d = {\"k\": [1]}\n  $e = $d\n  match A()\n  ($a.append(3))\n  ($d[\"k\"].append(2))\n"
+        "  send Rep(a=$a, b=$b, d=$d, e=$e)\n  match A()\n  ($b.append(4))\n  send Rep(a=$a, b=$b)\n  match Never()\n",
+        [["X", "A", "A"], ["A", "X", "A"], ["A", "A"]],
+    ),
+    "int-keyed-dict": (
+        "flow main\n  activate varholder\n  $d = {1: \"x\", 2: \"y\"}\n  match A()\n  send Rep(v=$d[1], d=$d)\n  match Never()\n",
+        [["X", "A"], ["A"]],
+    ),
     # a dict variable that got its value from another variable / came in as a flow parameter (an interpreter-held dict object
     # in the live state, a plain dict after a restore); after the cut it is copied by name, one name is updated in place,
     # the other one is reported
@@ -152,6 +162,11 @@ def cases(tier, seed):
             for r in range(reps):
                 k += 1
                 yield {"id": k, "seed": base + k, "prog": name, "aged": aged}
+    # the documented way to keep a Colang 2 conversation: LLMRails.generate(messages=..., state=<what the last call returned>).
+    # A saved state may be continued MORE THAN ONCE (retry, regenerate, branch), by the same instance or by another one
+    for r in range(30 if tier == "quick" else 300):
+        k += 1
+        yield {"id": k, "seed": base + k, "rails_state": True}
 
 
 _S = {}
@@ -246,7 +261,69 @@ def replay(b, h2, seed):
     return outs
 
 
+RAILS_STATE_CO = '''import core
+
+flow main
+  $n = 0
+  $log = []
+  while True
+    user said something as $u
+    $n = $n + 1
+    ($log.append($u.transcript))
+    bot say "count {$n} after {$log}"
+'''
+
+
+def run_rails_state(case):
+    """A tree of continuations: every returned state is kept (as the caller gets it: a plain JSON-able dict); each step continues
+    from ANY saved state, on the one long-lived LLMRails instance or on a fresh one. The reply is a function of the path from
+    the root (counter and list of the user texts so far)."""
+    import asyncio
+    import json
+
+    from . import rails
+
+    L = rails.load()
+    rng = random.Random(case["seed"])
+    base = {"key": "rails-state:%d" % case["seed"], "nontrivial": True, "fam": "rails-state", "sample": {"family": "LLMRails.generate(state=...) continuation tree", "program": RAILS_STATE_CO}}
+    obs = {"rails_state_cases": 1, "continuations": 0, "continuations_of_an_already_continued_state": 0, "continuations_on_fresh_instance": 0}
+    try:
+        cfg = L["RailsConfig"].from_content(RAILS_STATE_CO, 'colang_version: "2.x"\nmodels: []\n')
+        mk = lambda: L["LLMRails"](cfg, llm=L["RecLLM"](script=lambda p_: "", log=rails.Log()))  # noqa: E731
+        shared = mk()
+    except Exception as e:
+        return dict(base, verdict="inconclusive", reason="app-build-failed:%s" % type(e).__name__, detail=str(e)[:300], nontrivial=False)
+    nodes = [{"state": {}, "path": [], "used": 0}]
+    steps_log = []
+    for stepno in range(rng.randint(4, 9)):
+        i = rng.randrange(len(nodes)) if rng.random() < 0.6 else len(nodes) - 1
+        node = nodes[i]
+        text = "w%d" % stepno
+        fresh = rng.random() < 0.25
+        app = mk() if fresh else shared
+        state_in = json.loads(json.dumps(node["state"]))  # what a caller stores between requests
+        try:
+            res = asyncio.run(asyncio.wait_for(app.generate_async(messages=[{"role": "user", "content": text}], state=state_in), 60))
+        except Exception as e:
+            return dict(base, verdict="violated", mech="continuation-raised:%s" % type(e).__name__, observed=obs, witness={"steps": steps_log, "failing": {"from_node": i, "text": text, "fresh_instance": fresh}, "exception": str(e)[:300]})
+        obs["continuations"] += 1
+        obs["continuations_of_an_already_continued_state"] += int(node["used"] > 0)
+        obs["continuations_on_fresh_instance"] += int(fresh)
+        node["used"] += 1
+        path = node["path"] + [text]
+        want = "count %d after %s" % (len(path), path)
+        got = [m_.get("content") for m_ in (res.response or []) if isinstance(m_, dict)]
+        steps_log.append({"from_node": i, "already_continued": node["used"] - 1, "fresh_instance": fresh, "text": text, "reply": got})
+        if got != [want]:
+            return dict(base, verdict="violated", mech="restored-differs:continued-state" + (":second-continuation" if node["used"] > 1 else ""), observed=obs,
+                        witness={"steps": steps_log, "expected_reply": want, "got": got, "path_of_user_texts": path})
+        nodes.append({"state": res.state, "path": path, "used": 0})
+    return dict(base, verdict="held", observed=obs)
+
+
 def run_case(case):
+    if case.get("rails_state"):
+        return run_rails_state(case)
     if case.get("prog"):
         return run_api(case)
     from . import gen_v2, steps, v2h
@@ -280,7 +357,7 @@ def run_case(case):
     if "Dump" not in hist:
         hist.append("Dump")
     hist = [list(h) if isinstance(h, (list, tuple)) else h for h in hist]
-    base = {"key": repr((src, hist)), "picks": picks, "sample": {"program": src, "history": hist, "variables": picks}}
+    base = {"key": repr((src, hist)), "picks": picks, "sample": {"program": src, "history": hist, "variables": picks}, "tmpl": case.get("tmpl")}
     obs = {"round_trips": 0, "cuts": 0, "max_json_kb": 0, "cleanups_removed_instances": 0, "events_compared": 0}
     for k in picks:
         obs[("tmpl_" + k[5:]) if k.startswith("tmpl:") else ("var_" + k)] = 1
@@ -499,8 +576,13 @@ def json_dumps(x):
 
 
 def classify(r):
+    if r.get("fam") == "rails-state":
+        return r.get("mech", "rails-state:unclassified")
     kind = r.get("kind", "unknown")
     det = r.get("detail", "")
+    if kind == "restored-differs" and r.get("tmpl") in ("alias-made-before-cut", "int-keyed-dict"):
+        # structural: the program of the template has two names for one list/dict object / a dict with int keys at the cut
+        return "restored-differs:" + r["tmpl"]
     if kind == "serialise-failed" and "Unhandled type in encode_to_dict" in det:
         m = re.search(r"<class '([^']+)'>", det)
         return "value-not-serialisable:%s" % (m.group(1) if m else "?")
